@@ -31,7 +31,8 @@ EndsWith(str, t) == Len(str) >= Len(t) /\ SubSeq(str, Len(str) - Len(t) + 1, Len
 \* (stacked writes are followed when the value is staged in the driver's SRC directory, as the model assumes)
 StagedInSrc(e) == e.api \in {"set", "put", "set_tf", "put_tf"} /\ Has(e, "srcdir") /\ EndsWith(e.srcdir, "/SRC")
 \* (hk: the kind of handle the operation goes through; a participant that plants a read-only level through a plain handle is not followed)
-Modeled(e) == ~e.world /\ (Has(e, "hk") => e.hk = FrontKind) /\
+\* (runs marked "unmodelled" use an environment the model has no action for -- short transfers -- and are not followed)
+Modeled(e) == ~e.world /\ ~rn.unmodelled /\ (Has(e, "hk") => e.hk = FrontKind) /\
               (IF FrontKind = "stack" THEN (e.api \in {"get", "touch", "ensure"} \/ StagedInSrc(e)) /\ ~rn.wsharded
                             ELSE e.api \in {"get", "touch", "set", "put"})
 \* an injected failure inside std::io::copy's private probing (fstat of source / destination): the fallback it takes is the
@@ -76,7 +77,7 @@ AltsOf(lbl, lo) ==
 Alts(p) == UNION {AltsOf(pc[p], lo) : lo \in BaseAlts(p)}
 
 TInit ==
-    /\ l = 1 /\ rn = [job |-> "", run |-> 0, wsharded |-> FALSE] /\ skip = <<>> /\ drift = <<>> /\ nops = 0 /\ cov = {}
+    /\ l = 1 /\ rn = [job |-> "", run |-> 0, wsharded |-> FALSE, unmodelled |-> FALSE] /\ skip = <<>> /\ drift = <<>> /\ nops = 0 /\ cov = {}
     /\ pc = <<>> /\ loc = <<>>
     /\ fs = EmptyFS /\ clock = 0 /\ nino = 0 /\ aux = <<>> /\ last = <<>>
 
@@ -142,6 +143,7 @@ TNext ==
             /\ rn' = [job |-> e.job, run |-> e.run,
                        front |-> IF Has(e, "cfg") /\ Has(e.cfg, "front") THEN e.cfg.front ELSE "?",
                        hasro |-> Has(e, "cfg") /\ Has(e.cfg, "roots") /\ \E i \in 1..Len(e.cfg.roots) : e.cfg.roots[i].role = "ro",
+                       unmodelled |-> Has(e, "cfg") /\ Has(e.cfg, "unmodelled") /\ e.cfg.unmodelled,
                        wsharded |-> Has(e, "cfg") /\ Has(e.cfg, "roots") /\ \E i \in 1..Len(e.cfg.roots) : e.cfg.roots[i].role = "w" /\ e.cfg.roots[i].kind = "sharded",
                        cap |-> IF Has(e, "cfg") /\ Has(e.cfg, "shardcap") /\ FrontKind = "sharded" THEN e.cfg.shardcap
                                ELSE IF Has(e, "cfg") /\ Has(e.cfg, "cap") THEN e.cfg.cap ELSE 1000000]
